@@ -86,7 +86,8 @@ FullPic(cv, y) ==
 
 Expected(tr, i) ==
   LET cv == Canv[tr.canvas] IN
-  IF cv.kind = "text" \/ (tr.tl = 0 /\ tr.cols = cv.W)
+  \* kind "placeholder": the canvas of the error placeholder rendered in the image's place
+  IF cv.kind \in {"text", "placeholder"} \/ (tr.tl = 0 /\ tr.cols = cv.W)
     THEN CropPic(FullPic(cv, tr.tt + i), tr.tl, tr.cols)
     ELSE BlankPic(tr.cols)        \* graphics: a horizontal trim yields blank cells
 
@@ -118,7 +119,7 @@ RowResult(tr, i) ==
         ELSE IF ~SgrDefault(Tw) THEN "colour-bleed: text attributes not reset at the end of the row"
         ELSE IF Tw.c # n THEN "cursor-end: the cursor is not just past the row's last column"
         ELSE IF Pic(Tw, row, 1, n) # want
-               THEN IF cv.kind = "text"
+               THEN IF cv.kind \in {"text", "placeholder"}
                       THEN "crop-text: cells differ from the same region of the untrimmed canvas"
                     ELSE IF tr.tl = 0 /\ tr.cols = cv.W
                       THEN "gfx-lines: row does not show the strip of the corresponding line"
